@@ -30,6 +30,8 @@ func runC04(c *Ctx) {
 	checkSortSelf(c, "R04g")
 	c.Rule("R04l", ruleTextExactIdentity, 2)
 	checkExactIdentity(c, "R04l")
+	c.Rule("R04m", ruleTextModifyPolarity, 4)
+	checkModifyPolarity(c, "R04m")
 	c.Rule("R04j", ruleTextOwnDroppedColumns, 3)
 	checkOwnDroppedColumns(c, "R04j")
 	c.Rule("R04k", ruleTextStableCoarseSort, 1)
